@@ -290,5 +290,100 @@ def unravelIndex (k : Int) (shape : Int × Int) : Option (Int × Int) :=
   if 0 ≤ k ∧ k < shape.1 * shape.2 then
     some (((k.toNat / shape.2.toNat : Nat) : Int), ((k.toNat % shape.2.toNat : Nat) : Int))
   else none
+/-! ### tracked exceptions, `try / except`, `with`, fallible iterators
+
+`err` above is an exception of an UNTRACKED kind (nothing is known about it but that the call did not finish).  A function whose
+exceptions matter (which one, with which arguments; handlers; context managers) is translated with result type `Except Exc R`:
+`raise K(f"…")` is `.ret v (.error ⟨"K", template, integer arguments⟩)` — an early exit that `seq`, `forEach`, `whileF` propagate exactly
+like Python propagates an exception, that `tryExcept` intercepts by class, and that `withExit` hands to the translated `__exit__`.
+`return x` is `.ret v (.ok x)`. -/
+
+/-- a raised exception (also used for `warnings.warn`): class name, the message template (the f-string with its placeholders as source
+text) and the values of its integer placeholders in order -/
+structure Exc where
+  kind : String
+  msg : String
+  args : List Int
+deriving Repr, DecidableEq, Inhabited
+
+/-- the built-in exception hierarchy, child → parent (as far as handlers of the translated code can tell classes apart) -/
+def excParent : List (String × String) :=
+  [("UnicodeDecodeError", "UnicodeError"), ("UnicodeEncodeError", "UnicodeError"), ("UnicodeError", "ValueError"),
+   ("ValueError", "Exception"), ("IndexError", "LookupError"), ("KeyError", "LookupError"), ("LookupError", "Exception"),
+   ("AssertionError", "Exception"), ("TypeError", "Exception"), ("RecursionError", "RuntimeError"), ("RuntimeError", "Exception"),
+   ("FileNotFoundError", "OSError"), ("OSError", "Exception"), ("StopIteration", "Exception"), ("UserWarning", "Warning"),
+   ("Warning", "Exception"), ("Exception", "BaseException")]
+
+/-- `issubclass(k, base)` -/
+def isSubclass : Nat → String → String → Bool
+  | 0, k, base => k == base
+  | n + 1, k, base => k == base || match excParent.lookup k with
+    | some p => isSubclass n p base
+    | none => false
+
+/-- `except base:` catches `e` -/
+def Exc.isA (e : Exc) (base : String) : Bool := isSubclass 8 e.kind base
+
+/-- `raise e` -/
+@[inline] def raise (e : Exc) : V → Res V (Except Exc R) := fun v => .ret v (.error e)
+
+/-- `try: body` / `except base as e: handler` (one handler; no `else` / `finally`) -/
+def tryExcept (body : V → Res V (Except Exc R)) (base : String) (handler : Exc → V → Res V (Except Exc R)) : V → Res V (Except Exc R) :=
+  fun v =>
+    match body v with
+    | .ret v' (.error e) => if e.isA base then handler e v' else .ret v' (.error e)
+    | r => r
+
+/-- `with mgr: body` after `__enter__`: run the body, then call `__exit__` (`exit v none` on a normal exit, `exit v (some e)` when the body
+raised `e`; it returns the updated variables and the truth value of what `__exit__` returned).  The exception propagates unless `__exit__`
+returned a true value.  An untracked `err` stays `err` (the state in which `__exit__` would run is unknown). -/
+def withExit (exit : V → Option Exc → Option (V × Bool)) (body : V → Res V (Except Exc R)) : V → Res V (Except Exc R) :=
+  fun v =>
+    match body v with
+    | .ret v' (.error e) =>
+      match exit v' (some e) with
+      | none => .err
+      | some (v'', swallow) => if swallow then .next v'' else .ret v'' (.error e)
+    | .ret v' (.ok r) => match exit v' none with
+      | none => .err
+      | some (v'', _) => .ret v'' (.ok r)
+    | .next v' => match exit v' none with
+      | none => .err
+      | some (v'', _) => .next v''
+    | .brk v' => match exit v' none with
+      | none => .err
+      | some (v'', _) => .brk v''
+    | .cont v' => match exit v' none with
+      | none => .err
+      | some (v'', _) => .cont v''
+    | .err => .err
+
+/-- an iterator that yields `items` and then, instead of stopping, may raise (a text file whose bytes cannot be decoded from some
+point on: `fail = some UnicodeDecodeError`) -/
+structure Stream (α : Type) where
+  items : List α
+  fail : Option Exc
+deriving Repr, Inhabited
+
+/-- `enumerate(stream)` -/
+def Stream.enumerate (s : Stream α) : Stream (Int × α) := ⟨Py.enumerate s.items, s.fail⟩
+
+/-- `for x in stream: body` -/
+def forEachS (body : α → V → Res V (Except Exc R)) : List α → Option Exc → V → Res V (Except Exc R)
+  | [], none, v => .next v
+  | [], some e, v => .ret v (.error e)
+  | x :: xs, f, v =>
+    match body x v with
+    | .next v' => forEachS body xs f v'
+    | .cont v' => forEachS body xs f v'
+    | .brk v' => .next v'
+    | .ret v' r => .ret v' r
+    | .err => .err
+
+/-- result of a whole function body with tracked exceptions: falling off the end returns `None` -/
+def finishX (dflt : R) : Res V (Except Exc R) → Option (V × Except Exc R)
+  | .next v => some (v, .ok dflt)
+  | .ret v r => some (v, r)
+  | _ => none
 
 end Py
